@@ -52,3 +52,53 @@ Definition snake_sym : str := [83;110;97;107;101;87;111;114;100].          (* Sn
 Definition camel_sym : str := [67;97;109;101;108;87;111;114;100].          (* CamelWord *)
 Definition shouty_sym : str := [83;104;111;117;116;121;87;111;114;100].    (* ShoutyWord *)
 Definition number_sym : str := [78;117;109;98;101;114].                    (* Number *)
+
+(* ---- numeric constants (doc/language-reference.md, "Numeric Constant Formats") ---- *)
+Definition hexdig (c : N) : Prop := digit c \/ 97 <= c <= 102 \/ 65 <= c <= 70.   (* 0-9 a-f A-F *)
+Definition bindig (c : N) : Prop := 48 <= c <= 49.
+
+(* one or more digits *)
+Definition plain (P : N -> Prop) (w : str) : Prop := w <> [] /\ Forall P w.
+
+(* a first group of 1..k digits followed by groups of exactly k digits, each introduced by '_' *)
+Definition grouped (P : N -> Prop) (k : nat) (w : str) : Prop :=
+  exists g0 gs, w = g0 ++ concat (map (cons 95) gs) /\
+    (1 <= length g0 <= k)%nat /\ Forall P g0 /\
+    Forall (fun g => length g = k /\ Forall P g) gs.
+
+(* the documented formats: decimal with optional thousands separators; 0x / 0b with optional
+   separators every 4 or every 8 digits (never mixed) *)
+Definition is_number_doc (w : str) : Prop :=
+  plain digit w \/ grouped digit 3 w \/
+  (exists b, w = 48 :: 120 :: b /\ (plain hexdig b \/ grouped hexdig 4 b \/ grouped hexdig 8 b)) \/
+  (exists b, w = 48 :: 98 :: b /\ (plain bindig b \/ grouped bindig 4 b \/ grouped bindig 8 b)).
+
+(* what the Number patterns accept: additionally one '_' directly after 0x / 0b in the grouped forms *)
+Definition opt_under (P : str -> Prop) (b : str) : Prop := P b \/ exists b', b = 95 :: b' /\ P b'.
+
+Definition is_number (w : str) : Prop :=
+  plain digit w \/ grouped digit 3 w \/
+  (exists b, w = 48 :: 120 :: b /\
+     (plain hexdig b \/ opt_under (grouped hexdig 4) b \/ opt_under (grouped hexdig 8) b)) \/
+  (exists b, w = 48 :: 98 :: b /\
+     (plain bindig b \/ opt_under (grouped bindig 4) b \/ opt_under (grouped bindig 8) b)).
+
+Definition cls_digit : list (N * N) := [(48, 57)].
+Definition cls_hex : list (N * N) := [(48, 57); (97, 102); (65, 70)].
+Definition cls_bin : list (N * N) := [(48, 48); (49, 49)].
+Definition chr1 (c : N) : re := Chr false [(c, c)].
+
+(* X+ *)
+Definition re_plain (X : list (N * N)) : re := Cat (Chr false X) (Star (Chr false X)).
+(* X{1,k}(?:_X{k})* *)
+Definition re_grouped (X : list (N * N)) (k : nat) : re :=
+  Cat (Rep (Chr false X) 1 k) (Star (Cat (chr1 95) (Rep (Chr false X) k k))).
+(* 0<p>R  and  0<p>_?R *)
+Definition re_pref (p : N) (R : re) : re := Cat (chr1 48) (Cat (chr1 p) R).
+Definition re_pref_u (p : N) (R : re) : re := Cat (chr1 48) (Cat (chr1 p) (Cat (Alt (chr1 95) Eps) R)).
+
+(* the eight Number rows of the table, in order *)
+Definition re_numbers : list re :=
+  [ re_plain cls_digit; re_grouped cls_digit 3;
+    Cat (chr1 48) (Cat (chr1 120) (re_plain cls_hex)); re_pref_u 120 (re_grouped cls_hex 4); re_pref_u 120 (re_grouped cls_hex 8);
+    Cat (chr1 48) (Cat (chr1 98) (re_plain cls_bin)); re_pref_u 98 (re_grouped cls_bin 4); re_pref_u 98 (re_grouped cls_bin 8) ].
